@@ -6,6 +6,9 @@ PROPS = {
     "C09": ["c09_auxes", "c11_clocks"],
     "C11": ["c11_clocks", "c06_bracketing"],
     "C21": ["c21_needs"],
+    "C24": ["c24_streams"],
+    "C25": ["c24_streams"],
+    "C28": ["c24_streams"],
     "C38": ["c38_exchange"],
     "C41": ["c41_crc"],
     "C42": ["c42_timers"],
